@@ -14,29 +14,57 @@ SET_DATA = 'Avtp_Vss_SetVssData'
 
 
 def shapes(tier):
+    """(A) cross product over small sets of lengths, every datatype; (B) sweeps: every path length in a range with
+    one scalar datatype, every data length in a range per variable-length datatype.  Byte-carry and sign boundaries
+    (254..257, 510..513, 32767/8, 65534/5) are therefore covered, not sampled."""
     if tier == 'thorough':
         plens = list(range(0, 17)) + [31, 32, 33, 127, 128, 255, 256, 1000, 2026]
         counts = list(range(0, 9)) + [15, 16, 17, 130, 1024, 4096]
-        slens = list(range(0, 9)) + [127, 128, 255, 256, 4096, 32767, 32768, 65535]
+        slens = list(range(0, 9)) + [127, 128, 255, 256, 4096, 32767, 32768, 65534, 65535]
+        psweep = range(0, 2027)
+        dsweep = range(0, 2101)
+        csweep = range(0, 140)
     else:
-        # lengths around the 8- and 16-bit sign/carry boundaries matter as much as the small ones
         plens = [0, 1, 2, 13, 128, 255]
         counts = [0, 1, 2, 3, 130]
         slens = [0, 1, 5, 128, 255, 256, 32768]
+        psweep = list(range(0, 40)) + list(range(120, 136)) + list(range(250, 262)) + list(range(506, 518)) + \
+            list(range(766, 771)) + list(range(1020, 1028)) + [1534, 1535, 1536, 2026]
+        dsweep = list(range(0, 20)) + list(range(125, 131)) + list(range(253, 259)) + list(range(509, 515)) + \
+            [1023, 1024, 32767, 65534, 65535]
+        csweep = list(range(0, 20)) + [31, 32, 33, 63, 64, 65, 127, 128, 129]
     out = []
+    seen = set()
+
+    def add(x):
+        if x not in seen:
+            seen.add(x)
+            out.append(x)
     for mode in (V.INTEROP, V.STATIC):
         for pl in (plens if mode == V.INTEROP else [0]):
             for code, (name, ew, kind) in sorted(V.DATATYPES.items()):
                 if kind == 'scalar':
-                    out.append((mode, pl, code, 1))
+                    add((mode, pl, code, 1))
                 elif kind == 'array':
                     for n in counts:
                         if n * ew <= 65535 and V.H + 2 + pl + 2 + n * ew <= 70000:
-                            out.append((mode, pl, code, n))
+                            add((mode, pl, code, n))
                 else:
                     for n in slens:
                         if V.H + 2 + pl + 2 + n <= 70000:
-                            out.append((mode, pl, code, n))
+                            add((mode, pl, code, n))
+    for pl in psweep:
+        add((V.INTEROP, pl, 0x02, 1))          # uint16 scalar behind every path length
+    for code, (name, ew, kind) in sorted(V.DATATYPES.items()):
+        if kind == 'bytes':
+            for n in dsweep:
+                add((V.INTEROP, 13, code, n))
+                if n < 300:
+                    add((V.STATIC, 0, code, n))
+        elif kind == 'array':
+            for n in csweep:
+                if n * ew <= 65535:
+                    add((V.INTEROP, 13, code, n))
     return out
 
 
